@@ -795,6 +795,103 @@ impl Exec {
                 self.handles.remove(ks);
                 self.stale.retain(|(k, _)| k != ks);
             }
+            Op::FailedDelete { ks } => {
+                // an I/O error inside delete_keyspace (the meta keyspace's next table files cannot be created): the call
+                // fails, so the keyspace was not deleted - the name still exists, opening it gives the same keyspace with
+                // its content (the sweeps and every later reopen compare it), and a later delete works
+                if self.model.ks.contains_key(ks) {
+                    let h = self.handle(*ks)?;
+                    let name = ks_name(*ks);
+                    let folder = self.path.join("keyspaces").join("0").join("tables");
+                    let highest = std::fs::read_dir(&folder)
+                        .map(|rd| rd.flatten().filter_map(|d| d.file_name().to_str().and_then(|s| s.parse::<u64>().ok())).max().unwrap_or(0))
+                        .unwrap_or(0);
+                    let mut blockers = Vec::new();
+                    for id in (highest + 1)..=(highest + 6) {
+                        let p = folder.join(id.to_string());
+                        if !p.exists() && std::fs::write(&p, b"blocker").is_ok() {
+                            blockers.push(p);
+                        }
+                    }
+                    let r = self.db().delete_keyspace(h.clone());
+                    for b in &blockers {
+                        let _ = std::fs::remove_file(b);
+                    }
+                    match r {
+                        Ok(()) => {
+                            // the failure could not be produced (table ids further ahead): an ordinary deletion
+                            self.stats.inc("failed_delete.not_injected");
+                            self.handles.remove(ks);
+                            self.deleted_paths.push(h.path().to_path_buf());
+                            self.stale.push((*ks, h));
+                            self.model.apply(&Op::DeleteKs { ks: *ks });
+                        }
+                        Err(e) => {
+                            self.stats.inc("failed_deletes");
+                            let exists = self.db().keyspace_exists(&name);
+                            let again = self
+                                .db()
+                                .keyspace(&name, Default::default)
+                                .map_err(|e| err("keyspace-open", &name, &e))?;
+                            if !exists || again.id() != h.id() {
+                                return Err(Deviation::new(
+                                    "lifecycle:failed-delete-unregistered-the-keyspace",
+                                    format!(
+                                        "delete_keyspace('{name}') failed with {e:?}, so the keyspace was not deleted; afterwards keyspace_exists = {exists} and opening the name returns keyspace #{} (the existing one is #{})",
+                                        again.id(),
+                                        h.id()
+                                    ),
+                                ));
+                            }
+                        }
+                    }
+                }
+            }
+            Op::StaleBatch { ks, items } => {
+                // a batch is an operation on the keyspaces whose handles were put into it: items put in through the handle
+                // of a deleted incarnation go nowhere visible (in particular not into a keyspace re-created under the
+                // name), the other items take effect as always - or, if the engine refuses the batch, none does
+                if let Some((_, stale)) = self.stale.iter().find(|(k, _)| k == ks).cloned() {
+                    let mut live: Vec<WItem> = Vec::new();
+                    let mut b = self.db().batch();
+                    let mut through_stale = 0;
+                    for it in items {
+                        let h = if it.ks == *ks {
+                            through_stale += 1;
+                            stale.clone()
+                        } else if self.model.ks.contains_key(&it.ks) {
+                            live.push(it.clone());
+                            self.handle(it.ks)?
+                        } else {
+                            continue;
+                        };
+                        match &it.kind {
+                            WKind::Put(v) => b.insert(&h, it.key.clone(), v.bytes()),
+                            WKind::Del => b.remove(&h, it.key.clone()),
+                            WKind::WeakDel => b.remove_weak(&h, it.key.clone()),
+                        }
+                    }
+                    if through_stale > 0 {
+                        match b.commit() {
+                            Ok(()) => {
+                                self.stats.inc("stale_batches_committed");
+                                if self.model.ks.contains_key(ks) {
+                                    self.stats.inc("stale_batches_with_live_successor");
+                                }
+                                if !live.is_empty() {
+                                    self.stats.inc("stale_batches_with_live_items");
+                                }
+                                self.model.apply(&Op::Batch { items: live, dur: 0 });
+                            }
+                            Err(fjall::Error::KeyspaceDeleted) => {
+                                // refused as a whole: nothing of it may ever show
+                                self.stats.inc("stale_batches_refused");
+                            }
+                            Err(e) => return Err(err("write", "batch commit (stale handle)", &e)),
+                        }
+                    }
+                }
+            }
             Op::DeleteStale { ks } => {
                 // deleting through a handle of an earlier, already deleted incarnation of the name
                 // is an operation on that (gone) keyspace: it must not touch the keyspace that
